@@ -292,6 +292,12 @@ class Ctx:
         self.evaluations = 0
         self.nontrivial: set = set()
         self.known = json.loads(KNOWN.read_text()) if KNOWN.exists() else {"findings": [], "fixed": []}
+        for extra in sorted((VERIF / "findings.d").glob("*.json")):  # per-property finding files (same format)
+            try:
+                d = json.loads(extra.read_text())
+                self.known.setdefault("findings", []).extend(d.get("findings", []))
+            except Exception as e:  # a malformed file must not silence anything
+                print(f"[warn] {extra}: {e}", flush=True)
 
     def log(self, *a):
         msg = " ".join(str(x) for x in a)
